@@ -3,9 +3,15 @@
 
   1. characterising lemmas: every instruction of `Isa/Ptx.lean` as arithmetic on `Nat`
      (carries and borrows as quotients, so that the Nat mirrors contain no `if`);
-  2. per asm-carrying function a "Nat mirror" and a tie theorem `(Gen.Ptx.f ..).toNat = fN ..`
-     proved by `unfold; simp only [characterising lemmas]` (this is what breaks when the PTX changes);
+  2. `ptx_simp`, the symbolic execution of a generated let-chain (every `let` inlined, every instruction a `toNat` fact),
+     and `ptx_nat` = `ptx_simp` + equality up to associativity/commutativity of `+` and `*`;
+  3. per 32-bit-limb function (`reduce(uint32_t[4])`, `mul`, `mul(uint32_t)`) a "Nat mirror" and a tie theorem
+     `(Gen.Ptx.f ..).toNat = fN ..` by `unfold; ptx_nat` (`mul`: one of four mirrors, `MulMirror`); the mirrors of the
+     64-bit functions (`addN`, `subN`, `cnegN`, `finalN`) are only the fallback route of `Lemmas/PtxArith.lean`, which
+     proves their specifications directly on the `ptx_simp` form
   (the pure-Nat lemmas about the mirrors are in `Lemmas/PtxArith.lean`).
+  Independent of: register / temporary names, grouping of instructions into asm statements, order of independent
+  instructions (all erased by inlining the `let`s), operand order of commutative instructions (AC).
 
   Core only.  The property statements are in `Props/C20.lean`.
 -/
@@ -129,6 +135,9 @@ theorem madc_hi_cc_eq (a b c : BitVec w) (cf : Bool) : madc_hi_cc a b c cf = add
 theorem setp_eq_iff (a b : BitVec w) : (setp_eq a b = true) ↔ a.toNat = b.toNat := by simp [setp_eq]
 theorem setp_ne_iff (a b : BitVec w) : (setp_ne a b = true) ↔ a.toNat ≠ b.toNat := by simp [setp_ne]
 
+theorem setp_eq_false_iff (a b : BitVec w) : (setp_eq a b = false) ↔ a.toNat ≠ b.toNat := by simp [setp_eq]
+theorem setp_ne_false_iff (a b : BitVec w) : (setp_ne a b = false) ↔ a.toNat = b.toNat := by simp [setp_ne]
+
 theorem guard_toNat (p : Bool) (x y : BitVec w) :
     (guard p x y).toNat = if p = true then x.toNat else y.toNat := by
   cases p <;> rfl
@@ -182,18 +191,25 @@ local notation "M32" => 4294967296
 local notation "M64" => 18446744073709551616
 local notation "W32" => 4294967295
 
-/-- the one simp set that moves a generated let-chain to `Nat` -/
-syntax "ptx_nat" : tactic
+/-- the one simp set that moves a generated let-chain to `Nat`: every instruction becomes arithmetic on the
+    `toNat` of its operands (carries/borrows as quotients); `let`s are inlined, so register and temporary names, the
+    grouping of instructions into asm statements and the order of independent instructions leave no trace -/
+syntax "ptx_simp" : tactic
 macro_rules
-  | `(tactic| ptx_nat) => `(tactic| simp only [
+  | `(tactic| ptx_simp) => `(tactic| simp only [
       add_toNat, add_cc_fst, add_cc_snd, addc_toNat, addc_cc_fst, addc_cc_snd,
       Ptx.sub_toNat, sub_cc_fst, sub_cc_snd, subc_toNat, subc_cc_fst, subc_cc_snd,
       mul_lo_toNat, mul_hi_toNat, mad_lo_cc_eq, mad_hi_cc_eq, mad_lo_eq, mad_hi_eq,
       madc_lo_eq, madc_hi_eq, madc_lo_cc_eq, madc_hi_cc_eq,
-      guard_toNat, guard_pred, selp_toNat, setp_eq_iff, setp_ne_iff, pack64_toNat,
+      guard_toNat, guard_pred, selp_toNat, setp_eq_iff, setp_ne_iff, setp_eq_false_iff, setp_ne_false_iff,
+      Bool.not_eq_true', Bool.not_not, pack64_toNat,
       Cpp.trunc32_toNat, Cpp.shr64_toNat, Cpp.neg_toNat, Cpp.sub_toNat, Cpp.ofBool32_toNat, Cpp.eq_def, Cpp.ne_def, decide_eq_true_eq,
       Bool.and_eq_true, c_MOD, c_W, lo, hi, from_,
       BitVec.toNat_ofNat, Nat.reducePow, Nat.reduceMod, Nat.reduceSub, Nat.zero_add])
+
+/-- tie to a Nat mirror: `ptx_simp`, then equality up to associativity/commutativity of `+` and `*`
+    (operand order of `add*`, `mul.lo/hi`, `mad*` multiplicands) -/
+macro "ptx_nat" : tactic => `(tactic| (ptx_simp; first | done | (ac_nf0; with_reducible rfl)))
 
 /-- `operator+=` -/
 def addN (a b : Nat) : Nat :=
@@ -203,9 +219,6 @@ def addN (a b : Nat) : Nat :=
   let c2 := (c + M32 + (M32 - bw)) % M32
   if c2 = 0 then (s + W32) % M64 else s
 
-theorem add_assign_toNat (a b : BitVec 64) : (add_assign a b).toNat = addN a.toNat b.toNat := by
-  unfold add_assign addN
-  ptx_nat
 
 /-- `operator-=` -/
 def subN (a b : Nat) : Nat :=
@@ -214,26 +227,17 @@ def subN (a b : Nat) : Nat :=
   let br := (M32 + (M32 - bw)) % M32
   if br ≠ 0 then (d + 18446744069414584321) % M64 else d
 
-theorem sub_assign_toNat (a b : BitVec 64) : (sub_assign a b).toNat = subN a.toNat b.toNat := by
-  unfold sub_assign subN
-  ptx_nat
 
 /-- `cneg` -/
 def cnegN (a : Nat) (flag : Bool) : Nat :=
   if flag.toNat ≠ 0 ∧ (decide (a = 0)).toNat = 0 then (18446744069414584321 + (M64 - a)) % M64 else a
 
-theorem cneg_toNat (a : BitVec 64) (flag : Bool) : (cneg a flag).toNat = cnegN a.toNat flag := by
-  unfold cneg cnegN
-  ptx_nat
 
 /-- the final reduction `reduce()` (= `to()` in this configuration) -/
 def finalN (a : Nat) : Nat :=
   let c := (a + W32) / M64 % M32
   if c ≠ 0 then (a + W32) % M64 else a
 
-theorem final_reduce_toNat (a : BitVec 64) : (final_reduce a).toNat = finalN a.toNat := by
-  unfold final_reduce finalN
-  ptx_nat
 
 
 /-- last fold, `__CUDA_ARCH__ >= 700`: `+= e * W` by mad.lo.cc / madc.hi -/
@@ -324,17 +328,52 @@ def mulTN (a b : Nat) (k : Nat → Nat → Nat → Nat → Nat) : Nat :=
   let v3 := (t3 + cr + c4) % M32
   k t0 v1 v2 v3
 
+/-- the mad chains of `mul(const gl64_t&)` in the header's alternative form (`# else` of the `# if 1`): the carry of
+    the first chain is added into `temp[3]` at once instead of being isolated -/
+def mulTN2 (a b : Nat) (k : Nat → Nat → Nat → Nat → Nat) : Nat :=
+  let a0 := a % M32
+  let b0 := b % M32
+  let a1 := a / M32 % M32
+  let b1 := b / M32 % M32
+  let t0 := a0 * b0 % M32
+  let t1 := a0 * b0 / M32
+  let t2 := a1 * b1 % M32
+  let t3 := a1 * b1 / M32
+  let u1 := (a0 * b1 % M32 + t1) % M32
+  let c1 := (a0 * b1 % M32 + t1) / M32
+  let u2 := (a0 * b1 / M32 + t2 + c1) % M32
+  let c2 := (a0 * b1 / M32 + t2 + c1) / M32
+  let u3 := (t3 + 0 + c2) % M32
+  let v1 := (a1 * b0 % M32 + u1) % M32
+  let c3 := (a1 * b0 % M32 + u1) / M32
+  let v2 := (a1 * b0 / M32 + u2 + c3) % M32
+  let c4 := (a1 * b0 / M32 + u2 + c3) / M32
+  let v3 := (u3 + 0 + c4) % M32
+  k t0 v1 v2 v3
+
+/-- what the tie of `mul` establishes: the result is one of the known mirrors of the mad chains, with the two factors in
+    either role (`mulTN b a` is `mulTN a b` with the two cross-term chains issued in the other order and every product
+    commuted); each mirror is proved to hand `k` the four words of the exact product in `Lemmas/PtxArith.lean` -/
+def MulMirror (r x y : Nat) (k : Nat → Nat → Nat → Nat → Nat) : Prop :=
+  r = mulTN x y k ∨ r = mulTN y x k ∨ r = mulTN2 x y k ∨ r = mulTN2 y x k
+
 theorem mul_raw_sm70_toNat (a b : BitVec 64) :
-    (mul_raw_sm70 a b).toNat = mulTN a.toNat b.toNat reduce4N_sm70 := by
-  unfold mul_raw_sm70 mulTN
-  simp only [reduce4_sm70_toNat]
-  ptx_nat
+    MulMirror (mul_raw_sm70 a b).toNat a.toNat b.toNat reduce4N_sm70 := by
+  unfold MulMirror
+  first
+  | (refine Or.inl ?_; unfold mul_raw_sm70 mulTN; simp only [reduce4_sm70_toNat]; ptx_nat)
+  | (refine Or.inr (Or.inl ?_); unfold mul_raw_sm70 mulTN; simp only [reduce4_sm70_toNat]; ptx_nat)
+  | (refine Or.inr (Or.inr (Or.inl ?_)); unfold mul_raw_sm70 mulTN2; simp only [reduce4_sm70_toNat]; ptx_nat)
+  | (refine Or.inr (Or.inr (Or.inr ?_)); unfold mul_raw_sm70 mulTN2; simp only [reduce4_sm70_toNat]; ptx_nat)
 
 theorem mul_raw_pre70_toNat (a b : BitVec 64) :
-    (mul_raw_pre70 a b).toNat = mulTN a.toNat b.toNat reduce4N_pre70 := by
-  unfold mul_raw_pre70 mulTN
-  simp only [reduce4_pre70_toNat]
-  ptx_nat
+    MulMirror (mul_raw_pre70 a b).toNat a.toNat b.toNat reduce4N_pre70 := by
+  unfold MulMirror
+  first
+  | (refine Or.inl ?_; unfold mul_raw_pre70 mulTN; simp only [reduce4_pre70_toNat]; ptx_nat)
+  | (refine Or.inr (Or.inl ?_); unfold mul_raw_pre70 mulTN; simp only [reduce4_pre70_toNat]; ptx_nat)
+  | (refine Or.inr (Or.inr (Or.inl ?_)); unfold mul_raw_pre70 mulTN2; simp only [reduce4_pre70_toNat]; ptx_nat)
+  | (refine Or.inr (Or.inr (Or.inr ?_)); unfold mul_raw_pre70 mulTN2; simp only [reduce4_pre70_toNat]; ptx_nat)
 
 /-- `mul(uint32_t)`: common part, the words `(v0, v1)` and the carry `e` handed to the last fold (continuation `k`) -/
 def mulU32TN (a b : Nat) (k : Nat → Nat → Nat → Nat) : Nat :=
